@@ -274,7 +274,8 @@ def run_batch(a):
             common.write_tree(os.path.join(root, "src"), files)
             if via == "driver":
                 import json
-                json.dump({"project_path": os.path.join(root, "src"), "output_path": os.path.join(root, "out"), "validation_library": mode}, open(os.path.join(root, "cfg.json"), "w"))
+                json.dump({"project_path": os.path.join(root, "src"), "output_path": os.path.join(root, "out"), "validation_library": mode, "verbose": len(sub) % 2 == 1,
+                           "visualize_deps": len(sub) % 3 == 1}, open(os.path.join(root, "cfg.json"), "w"))
                 r = common.run([drv, "gen", os.path.join(root, "cfg.json")], cwd=root, timeout=120)
             else:
                 # "cli+viz" / "cli+verbose": the options add code paths of their own (graph rendering, listings of what was found)
@@ -442,6 +443,11 @@ def run(tier):
     nonrust = [("non-rust-%d" % i, [("f.rs", t), ("ok.rs", "#[tauri::command]\npub fn ok_cmd() {}\n")]) for i, t in enumerate(NON_RUST)]
     add("non-rust", nonrust, "none", bsize=4)
     add("non-rust", nonrust, "zod", via="driver", bsize=4)
+    # the same texts with nothing parsable next to them (and trees without any source file), under every output option: the
+    # counts the tool reports and derives (files parsed, commands found) are all zero then
+    alone = [("non-rust-alone-%d" % i, [("f.rs", t)]) for i, t in enumerate(NON_RUST)] + [("no-rs-files", [("notes.txt", "nothing to see")]), ("empty-rs-only", [("a.rs", ""), ("b/c.rs", "\n")])]
+    for k, (mode, via) in enumerate([("none", "cli"), ("zod", "cli+verbose"), ("none", "cli+viz+verbose"), ("zod", "cli+viz"), ("none", "driver")]):
+        add("nothing-parsable", alone if tier != "quick" else alone[k % 2::2] + alone[-2:], mode, via=via, bsize=1)
     corpus = corpus_files()
     rnd.shuffle(corpus)
     ncorp = 1500 if tier == "quick" else len(corpus)
